@@ -202,7 +202,9 @@ def execute(plan):
         if extra:
             vio.append(["C11", "application_error_only_under_version_range", {
                 "workload": kind, "table": plan["table"], "errors": extra}])
-        if (rc.get("ndelivered") or 0) > 0 and rt.get("ndelivered") == 0:
+        # (a handful of records can come down to timing: a poll that times out a little earlier
+        # under another Metadata / Fetch version)
+        if (rc.get("ndelivered") or 0) >= 8 and rt.get("ndelivered") == 0:
             vio.append(["C11", "nothing_delivered_under_version_range", {
                 "workload": kind, "table": plan["table"], "control_delivered": rc.get("ndelivered")}])
     if rt["status"] not in ("ok", "spin") and not ctrl_bad:
